@@ -205,6 +205,36 @@ func RecScenarios(tier string) []*Scenario {
 		n++
 		out = append(out, buildRecNamed(fmt.Sprintf("%05d", n), nm.name, nm.under, nm.noRT))
 	}
+	// generic types: instantiations of a generic recursive tree and of generic wrappers around each other
+	for _, arg := range []func(u *space.Universe) *space.Ty{
+		func(u *space.Universe) *space.Ty { return tInt },
+		func(u *space.Universe) *space.Ty { return tStr },
+		func(u *space.Universe) *space.Ty { return space.P(tInt) },
+		func(u *space.Universe) *space.Ty { return space.S(tStr) },
+	} {
+		n++
+		id := fmt.Sprintf("%05d", n)
+		u := space.StdUniverse()
+		mk := func(pkg string) (*space.Decl, *space.Decl) {
+			tree := &space.Decl{Pkg: pkg, Name: "Tree" + id, TParams: 1}
+			tree.Under = space.St(f("V", space.B("T0")), f("Kids", space.S(space.N(tree, space.B("T0")))), f("Up", space.P(space.N(tree, space.B("T0")))))
+			box := &space.Decl{Pkg: pkg, Name: "Box" + id, TParams: 1, Under: space.St(f("In", space.B("T0")), f("M", space.M(tStr, space.B("T0"))))}
+			return tree, box
+		}
+		it, ib := mk("in")
+		ot, ob := mk("out")
+		a := arg(u)
+		src := space.N(ib, space.N(it, a))
+		dst := space.N(ob, space.N(ot, a))
+		sc := &Scenario{ID: "Y" + id, PropGen: "C03", PropVal: "C02", Test: "Convert", Funcs: map[string]string{}, Mode: "value,nomutate",
+			Desc: map[string]any{"class": "generic-recursive:" + a.Go("conv")}, Decls: []*space.Decl{it, ib, ot, ob}}
+		conv := &model.Converter{OutPkg: "conv/generated", LitPkg: "conv"}
+		sc.Conv = conv
+		mm := &model.Method{Name: "Convert", Src: src, Dst: dst, Fields: map[string]*model.FieldCfg{}}
+		conv.Methods = []*model.Method{mm}
+		sc.Methods = []*ScMethod{{Name: "Convert", Params: "source " + src.Go("conv"), Result: dst.Go("conv"), M: mm}}
+		out = append(out, sc)
+	}
 	return out
 }
 
